@@ -53,6 +53,12 @@ W3 = [{"n": 0, "body": l(call(1), call(2)), "limits": None}, {"n": 0, "body": l(
       {"n": 0, "body": l(c(5)), "limits": None}]
 
 
+# main(x) = [block(), use(x), x] called as main(H("h3")): the root job has no parent job
+ROOTP = [{"n": 1, "body": l(call(1), call(2, p(0)), p(0)), "limits": None},
+         {"n": 0, "body": c(7), "limits": LIM}, {"n": 1, "body": l(c(8), p(0)), "limits": LIM}]
+ROOT_ARGS = (("h", 3),)
+
+
 def by_task(order):
     """complete the held job whose task comes first in `order`"""
     def f(held, run):
@@ -129,12 +135,14 @@ def partitions(runs, structural):
             classes([x for r in runs for x in r.call_hash]))
 
 
-def check_term(cfg, prog, runs, structural):
+def check_term(cfg, prog, runs, structural, root_args=()):
+    """root_args: template expressions of kind ("h", name) / ("c", v) given to the root call"""
+    rargs = "[" + "; ".join(f"(VHInit {a[1]}%nat)" if a[0] == "h" else cq_val(a[1]) for a in root_args) + "]"
     ops = "[" + ";\n ".join("[" + "; ".join(cq_op(e) for e in r.events) + "]" for r in runs) + "]"
     tasks = "[" + "; ".join(nl(r.task_idx) for r in runs) + "]"
     args, res, node = partitions(runs, structural)
     progs = "[" + "; ".join(cq_te(td["body"]) for td in prog) + "]"
-    return f"check_prog {cfg} {progs} [] {ops} {tasks} {nl(args)} {nl(res)} {nl(node)}"
+    return f"check_prog {cfg} {progs} {rargs} {ops} {tasks} {nl(args)} {nl(res)} {nl(node)}"
 
 
 def modelled(run):
@@ -287,6 +295,13 @@ class Check(PropertyCheck):
                     r.params = {"limits": lim, "order": order}
                     runs.append(r)
                 self.witness_runs.append((name, prog, runs, key))
+            # a Handle given to the ROOT call (no parent job: call order `root_order`), passed on to a child
+            self.root_runs = []
+            for lim in ({"r0": 2}, {"r0": 1}):
+                r = c07_run.run_prog(ROOTP, lim, random.Random(0), root_args=ROOT_ARGS, complete_prob=0.0,
+                                     chooser=by_task([0, 1, 2]), db=db)
+                r.params = {"limits": lim, "order": [0, 1, 2], "root_args": ROOT_ARGS}
+                self.root_runs.append(r)
         finally:
             db.close()
 
@@ -300,6 +315,7 @@ class Check(PropertyCheck):
         terms, idx = [], []
         skipped_shared = skipped_other = 0
         items = [(m, pr, rs) for m, pr, rs in self.programs] + [("witness", pr, rs) for _, pr, rs, _ in self.witness_runs]
+        items.append(("root-handle", ROOTP, self.root_runs))
         for k, (mode, prog, runs) in enumerate(items):
             if not all(modelled(r) for r in runs):
                 skipped_other += 1
@@ -308,7 +324,7 @@ class Check(PropertyCheck):
             # finding): then the structural hashes computed by c07_run stand in for them
             structural = partitions(runs, False) != partitions(runs, True)
             skipped_shared += structural
-            terms.append(check_term(cfg, prog, runs, structural))
+            terms.append(check_term(cfg, prog, runs, structural, ROOT_ARGS if mode == "root-handle" else ()))
             idx.append(k)
             if mode != "witness":
                 self.sample({"mode": mode, "program": repr([td["body"] for td in prog])[:300],
